@@ -25,6 +25,9 @@ def lanczos_iteration(Afunc, vstart, numiter):
     assert nrmv > 0
     vstart = vstart / nrmv
 
+    # the Krylov subspace cannot have a larger dimension than the vector space
+    numiter = min(numiter, len(vstart))
+
     alpha = np.zeros(numiter)
     beta  = np.zeros(numiter-1)
 
@@ -71,6 +74,9 @@ def arnoldi_iteration(Afunc, vstart, numiter):
     nrmv = np.linalg.norm(vstart)
     assert nrmv > 0
     vstart = vstart / nrmv
+
+    # the Krylov subspace cannot have a larger dimension than the vector space
+    numiter = min(numiter, len(vstart))
 
     H = np.zeros((numiter, numiter), dtype=complex)
     V = np.zeros((numiter, len(vstart)), dtype=complex)
